@@ -127,7 +127,7 @@ def gen_(rng, i, tier):
             ops.append({"o": "getslice", "k": R(), "a": R(), "s": gen_slice(rng)})
         elif r < 0.69:
             d = Rn()
-            ops.append({"o": "getitem", "a": d, "i": idx(d)})
+            ops.append({"o": "getitem", "a": d, "i": idx(d), "np": rng.random() < 0.4})
         elif r < 0.75:
             d = Rn()
             ops.append({"o": "setitem", "d": d, "i": idx(d), "r": someres()})
@@ -281,8 +281,12 @@ def run_impl(case):
             def f(): regs[op["k"]] = regs[op["a"]][sl(op["s"])]
             def g(): mirror[op["k"]] = mirror[op["a"]][sl(op["s"])]
         elif o == "getitem":
-            def f(): regs[op["a"]][op["i"]]
-            def g(): mirror[op["a"]][op["i"]]
+            ix = op["i"]
+            if op.get("np"):           # an index a list accepts through __index__ (what numpy.argmin returns)
+                import numpy
+                ix = numpy.int64(ix)
+            def f(): regs[op["a"]][ix]
+            def g(): mirror[op["a"]][ix]
         elif o == "setitem":
             x = mk(op["r"])
             def f(): regs[op["d"]][op["i"]] = x
